@@ -272,7 +272,7 @@ func checkFieldFacts(c *Ctx, r *Report) {
 		}
 	}
 	// truncatedHash literals
-	th := c.Named("", "truncatedHash")
+	th := c.truncatedHashType()
 	if th == nil {
 		r.Lost("truncatedHash")
 		return
